@@ -17,7 +17,9 @@ EXPLANATION = (
     "create_df (dzsum <- dz, zBot <- dzsum, z_top <- zBot, dz, zMid <- z_top, zBot); every other function that rewrites a "
     "base column must rewrite every column derived from it before the frame is consumed. C18.c: the depth columns that "
     "are derived (zBot, z_top, zMid) are consumed only by the enumerated groundwater routines; the initial-water-content "
-    "interpolation takes its mid-depths from the base column dzsum. NOT decided: arbitrary custom dz, pedotransfer "
+    "interpolation takes its mid-depths from the base column dzsum. C18.d (typestate): the scalars fill_nan derives from the frame (zSoil, nComp) are read, in every "
+    "function that receives the user's Soil, only on paths that pass fill_nan() since the entry and since every dz update, and such a "
+    "function returns with the Soil fresh - so the deepening loop tests the real depth of the profile. NOT decided: arbitrary custom dz, pedotransfer "
     "ranges, numeric interpolation of initial water content.")
 
 DERIVED_CONSUMERS_OK = {
@@ -297,8 +299,110 @@ def rule_c(chk, prog):
             chk.violation("C18.c", f"{rm.module}:{rm.qualname}", construct, "the initial water content is not interpolated at mid-depths derived from dzsum", loc=rm.loc(c))
 
 
+def rule_d(chk, prog):
+    """typestate of the Soil object: the scalars fill_nan derives from the frame (total depth zSoil, compartment count nComp) are
+    fresh only after fill_nan() has run since the frame was last changed. The user's Soil enters the model in unknown state (the
+    constructor stores zSoil = sum(dz argument) before built-in branches replace the compartment list; add_layer / a dz edit do not
+    refresh it). In every function below _initialize that receives the Soil as a parameter:
+      (1) each read of a derived scalar is reachable only through a fill_nan() call, also from every write of the frame's dz;
+      (2) a function that calls fill_nan() or writes dz leaves the Soil fresh at every return."""
+    from ..common import INIT_ROOT
+    from ..rdef import flow_of
+    ci = prog.cls("Soil")
+    fn_ = ci.methods.get("fill_nan")
+    if fn_ is None:
+        raise AnalysisError("Soil.fill_nan vanished")
+    derived = sorted({t.attr for a in walk_no_nested(fn_.node) if isinstance(a, ast.Assign) for t in a.targets
+                      if isinstance(t, ast.Attribute) and isinstance(t.value, ast.Name) and t.value.id == "self" and t.attr != "profile"})
+    if not {"zSoil", "nComp"} <= set(derived):
+        raise AnalysisError(f"fill_nan no longer derives zSoil / nComp (derives {derived})")
+    n_reads = 0
+    for key in sorted(prog.reachable_from(INIT_ROOT)):
+        fi = prog.funcs.get(key)
+        if fi is None or fi.cls == "Soil":
+            continue
+        soils = set()
+        for arg in fi.node.args.args:
+            ann = arg.annotation
+            txt = ann.value if isinstance(ann, ast.Constant) and isinstance(ann.value, str) else (norm(ann) if ann is not None else "")
+            if txt.split(".")[-1] == "Soil":
+                soils.add(arg.arg)
+        if not soils:
+            continue
+        flow = flow_of(fi)
+        cfg = flow.cfg
+        where = f"{fi.module}:{fi.qualname}"
+        def is_refresh(n):
+            return n.ast is not None and any(isinstance(c, ast.Call) and isinstance(c.func, ast.Attribute) and c.func.attr == "fill_nan"
+                                             and isinstance(c.func.value, ast.Name) and c.func.value.id in soils
+                                             for c in ast.walk(n.ast) if n.kind in ("stmt", "test", "for"))
+        refresh = {n.id for n in cfg.live_nodes() if is_refresh(n)}
+        def writes_dz(n):
+            a = n.ast
+            ts = a.targets if isinstance(a, ast.Assign) else ([a.target] if isinstance(a, ast.AugAssign) else [])
+            return any(_col_of_target(t) in ("dz",) for t in ts)
+        writers = {n.id for n in cfg.live_nodes() if n.kind == "stmt" and writes_dz(n)}
+        reads = []
+        for n in cfg.live_nodes():
+            if n.ast is None or n.kind not in ("stmt", "test", "for"):
+                continue
+            roots = [n.ast] if n.kind != "for" else [n.ast.iter]
+            for r in roots:
+                for x in ast.walk(r):
+                    if isinstance(x, ast.Attribute) and x.attr in derived and isinstance(x.ctx, ast.Load) \
+                            and isinstance(x.value, ast.Name) and x.value.id in soils:
+                        reads.append((n, x))
+        if not reads and not refresh and not writers:
+            continue
+        chk.fn(key)
+        def reach_avoiding(src, dst):
+            # a path src ->+ dst that passes no refresh node (src itself excluded)
+            seen, stack = set(), [t for t, _ in cfg.nodes[src].succs]
+            while stack:
+                k = stack.pop()
+                if k in seen:
+                    continue
+                seen.add(k)
+                if k == dst:
+                    return True
+                if k in refresh:
+                    continue
+                stack.extend(t for t, _ in cfg.nodes[k].succs)
+            return False
+        for n, x in reads:
+            n_reads += 1
+            construct = f"read of {norm(x)} in `{norm(n.ast)[:60] if n.kind != 'for' else norm(n.ast.iter)[:60]}`"
+            stale_from = []
+            if n.id not in refresh and reach_avoiding(cfg.entry, n.id):
+                stale_from.append("the function entry (the Soil object as the user left it)")
+            for w in sorted(writers):
+                if reach_avoiding(w, n.id):
+                    stale_from.append(f"the dz update at line {cfg.nodes[w].lineno}")
+            if stale_from:
+                chk.violation("C18.d", where, construct, f"{norm(x)} is read on a path from {' and from '.join(stale_from)} that does not pass "
+                              f"{sorted(soils)[0]}.fill_nan(): the value can be stale (e.g. sum of the dz argument of a built-in soil whose "
+                              "compartment list was replaced) and the profile is then not deepened below the maximum rooting depth",
+                              loc=fi.loc(x))
+            else:
+                chk.ok("C18.d", where, construct, "only reachable through fill_nan() since entry and since every dz update")
+        if refresh or writers:
+            exits = [p for p, _ in cfg.nodes[cfg.exit].preds]
+            bad = []
+            for src in [cfg.entry] + sorted(writers):
+                if reach_avoiding(src, cfg.exit):
+                    bad.append("entry" if src == cfg.entry else f"dz update at line {cfg.nodes[src].lineno}")
+            construct = "Soil is fresh at every return"
+            if bad:
+                chk.violation("C18.d", where, construct, f"a path from {', '.join(bad)} reaches a return without fill_nan(): later readers of "
+                              f"{', '.join(derived)} (initial conditions, the daily step) see stale values", loc=fi.loc())
+            else:
+                chk.ok("C18.d", where, construct, "every path from entry / a dz update to a return passes fill_nan()")
+    chk.floor("C18.d", n_reads, 1, "reads of fill_nan-derived scalars in functions receiving the Soil")
+
+
 def run(chk, prog, tier):
     rule_a(chk, prog)
     rule_b(chk, prog)
     rule_c(chk, prog)
+    rule_d(chk, prog)
     chk.assume("A-1")
